@@ -240,3 +240,128 @@ def c06_bdf_rescaling(tier="quick", seed=0):
                    {"functions": ["bdf.rs change_d, compute_r, matmul", "BDF::interpolate"], "bounds": f"orders 1..{maxo}; n=1; factor, h, x, d symbolic; exact real arithmetic",
                     "trusted_base": ["Newton backward-difference form of the interpolating polynomial"]},
                    replayed=True if failed else None, replay_src="(polynomial identity of loop-free integer-parameterised code)", replay_log="; ".join(failed))
+
+
+# ============================================================================== C15: Radau's mass-matrix products
+class SymMatrix:
+    """n x n matrix of exact-domain entries for the AST slices below."""
+
+    def __init__(self, name, n, zero=False):
+        self.n = n
+        self.e = {(i, j): (sp.Integer(0) if zero else sp.Symbol(f"{name}{i}{j}", real=True)) for i in range(n) for j in range(n)}
+
+
+def _reads_matrix(node, name):
+    if isinstance(node, tuple):
+        if node and node[0] == "index" and isinstance(node[1], tuple) and node[1][0] == "path" and node[1][1] == [name]:
+            return True
+        return any(_reads_matrix(ch, name) for ch in node)
+    if isinstance(node, list):
+        return any(_reads_matrix(ch, name) for ch in node)
+    return False
+
+
+def _outer_loops_reading(node, name, out):
+    if isinstance(node, tuple):
+        if node and node[0] == "for" and _reads_matrix(node[4], name):
+            out.append(node)
+            return
+        for ch in node:
+            _outer_loops_reading(ch, name, out)
+    elif isinstance(node, list):
+        for ch in node:
+            _outer_loops_reading(ch, name, out)
+
+
+def c15_radau_mass_products(tier="quick", seed=0):
+    """Every place where RADAU::solve reads the mass matrix (sliced out of the source by its reads of
+    `mass[..]`) uses it as M, not M^T, and at the right entry: E1 = fac1*M - J, E2 = (alphn*M - J) + i betan*M
+    entrywise; the Newton right-hand side subtracts (M f_k)_i; the error estimate forms (M f1)_i."""
+    t0 = time.time()
+    n = 2
+
+    def h_index(it_, base, idx):
+        if isinstance(base, SymMatrix):
+            i, j = idx
+            return base.e[(int(i), int(j))]
+        return NotImplemented
+
+    def h_index_set(it_, base, idx, v):
+        if isinstance(base, SymMatrix):
+            i, j = idx
+            base.e[(int(i), int(j))] = v
+            return None
+        return NotImplemented
+
+    it, dom = _interp("RADAU", {"index": h_index, "index_set": h_index_set})
+    solve = it.fns["RADAU::solve"]
+    loops = []
+    _outer_loops_reading(solve[3], "mass", loops)
+    q = TB.Q()
+    failed = []
+    seen = set()
+    S = lambda nm: sp.Symbol(nm, real=True)
+    vec = lambda nm: RVec([S(f"{nm}_{i}") for i in range(n)])
+    for lp in loops:
+        env = Env()
+        Mx, Jx = SymMatrix("m", n), SymMatrix("j", n)
+        E1, E2r, E2i = SymMatrix("e1", n, True), SymMatrix("e2r", n, True), SymMatrix("e2i", n, True)
+        vals = {"n": n, "mass": Mx, "jac": Jx, "e1": E1, "e2r": E2r, "e2i": E2i, "fac1": S("fac1"), "alphn": S("alphn"), "betan": S("betan"), "h": S("h")}
+        for nm in ("z1", "z2", "z3", "f0", "f1", "f2", "f3", "scal", "y"):
+            vals[nm] = vec(nm)
+        vals["cont"] = RVec([S(f"cont_{i}") for i in range(4 * n)])
+        for k_, v in vals.items():
+            env.declare(k_, v)
+        before = {nm: list(vals[nm].items()) for nm in ("z1", "z2", "z3", "f0", "f1", "f2", "f3", "cont")}
+        try:
+            it.expr(lp, env)
+        except Unsupported as e:
+            raise Unsupported(f"Radau: a block reading `mass` could not be executed in isolation: {e}")
+        m = lambda i, j: sp.Symbol(f"m{i}{j}", real=True)
+        jj = lambda i, j: sp.Symbol(f"j{i}{j}", real=True)
+        symmap = {}
+
+        def same(a, b, label, desc):
+            ok, _ = q.unsat([TB.to_z3(sp.expand(a - b), symmap) != 0], label, True, sample={"forall": "M, J, f, z, h-factors", "obligation": desc})
+            if ok is False and desc not in failed:
+                failed.append(desc)
+
+        if _assigns(lp, "e1") or any(E1.e[k_] != 0 for k_ in E1.e):
+            seen.add("assembly")
+            for r in range(n):
+                for c in range(n):
+                    same(E1.e[(r, c)], m(r, c) * S("fac1") - jj(r, c), f"E1[{r},{c}]", "Radau: E1 is not (U1/h) M - J entry by entry")
+                    same(E2r.e[(r, c)], m(r, c) * S("alphn") - jj(r, c), f"E2r[{r},{c}]", "Radau: Re E2 is not (ALPH/h) M - J entry by entry")
+                    same(E2i.e[(r, c)], m(r, c) * S("betan"), f"E2i[{r},{c}]", "Radau: Im E2 is not (BETA/h) M entry by entry")
+        elif vals["z1"].items() != before["z1"]:
+            seen.add("newton")
+            for i in range(n):
+                s1 = sum(m(i, j) * before["f1"][j] for j in range(n))
+                s2 = sum(m(i, j) * before["f2"][j] for j in range(n))
+                s3 = sum(m(i, j) * before["f3"][j] for j in range(n))
+                same(vals["z1"].items()[i], before["z1"][i] - s1 * S("fac1"), f"newton rhs z1[{i}]", "Radau: the Newton right-hand side does not subtract (U1/h) (M f1)_i")
+                same(vals["z2"].items()[i], before["z2"][i] - s2 * S("alphn") + s3 * S("betan"), f"newton rhs z2[{i}]", "Radau: the Newton right-hand side (real part) is not z2 - (ALPH/h)(M f2)_i + (BETA/h)(M f3)_i")
+                same(vals["z3"].items()[i], before["z3"][i] - s3 * S("alphn") - s2 * S("betan"), f"newton rhs z3[{i}]", "Radau: the Newton right-hand side (imaginary part) is not z3 - (ALPH/h)(M f3)_i - (BETA/h)(M f2)_i")
+        elif vals["f2"].items() != before["f2"]:
+            seen.add("error_estimate")
+            for i in range(n):
+                s = sum(m(i, j) * before["f1"][j] for j in range(n))
+                same(vals["f2"].items()[i], s, f"error estimate f2[{i}]", "Radau: the error estimate does not form (M f1)_i")
+                same(vals["cont"].items()[i], s + before["f0"][i], f"error estimate cont[{i}]", "Radau: the error estimate's right-hand side is not (M f1)_i + f0_i")
+        else:
+            raise Unsupported("Radau: a block reading `mass` is none of the three known uses (E assembly, Newton right-hand side, error estimate)")
+    missing = {"assembly", "newton", "error_estimate"} - seen
+    if missing:
+        raise Unsupported(f"Radau: mass uses not found in the source: {sorted(missing)}")
+    return _result("c15_radau_mass_products", q, t0, failed,
+                   {"functions": ["RADAU::solve: the blocks reading mass[..] (AST slices): E1/E2 assembly, Newton right-hand side, error estimate"],
+                    "bounds": f"n={n}; all M, J, f, z and step factors; exact real arithmetic; {len(loops)} blocks"},
+                   **_mass_replay(failed))
+
+
+def _mass_replay(failed):
+    if not failed:
+        return dict(replayed=None, replay_src="", replay_log="")
+    from . import replay
+    r = replay.radau_mass_replay()
+    return dict(replayed=r[0], replay_src=r[1], replay_log="; ".join(failed) + "\n" + r[2])
